@@ -32,6 +32,8 @@ func runC11(p *Prog, r *Report) {
 	r.Describe("C11.1/E3", "every post-publication access of a lock-disciplined field holds its inferred guard")
 	e3 := p.E3()
 	nGuarded, nAcc := 0, 0
+	nSliceAlias := 0
+	_ = nSliceAlias
 	for _, k := range e3.keys {
 		fi := e3.fields[k]
 		if fi.Rule != 1 && fi.Rule != 2 {
@@ -56,6 +58,31 @@ func runC11(p *Prog, r *Report) {
 				if !ok {
 					r.Bad("C11.1/E3", fi.Key+"@"+p.FuncName(a.Fn)+"/alias", p.InstrPos(u),
 						fmt.Sprintf("the map %s is read into a local under its guard %v and then iterated / indexed here without it (a map value is a reference, not a snapshot): concurrent map access with every writer => crash (\"concurrent map iteration and map write\") or missed entries", fi.Key, fi.Guard))
+				}
+			}
+		}
+		// a slice is a reference to its backing array: where some writer changes the array in
+		// place (the removal idiom append(x[:i], x[i+1:]...), a re-fill of x[:0], x[i] = v),
+		// walking a copy of the slice header after the unlock reads what that writer writes
+		if inPlaceWriter(fi) != nil {
+			w := inPlaceWriter(fi)
+			for _, a := range fi.Accesses {
+				if a.Write || a.PrePub || len(fi.Guard) == 0 {
+					continue
+				}
+				for _, u := range sliceAliasUses(a.In) {
+					held := p.heldAbs(a.Fn, u)
+					ok := false
+					for _, g := range fi.Guard {
+						if held[g] {
+							ok = true
+						}
+					}
+					if !ok {
+						nSliceAlias++
+						r.Bad("C11.1/E3", fi.Key+"@"+p.FuncName(a.Fn)+"/slice-alias", p.InstrPos(u),
+							fmt.Sprintf("the slice %s is read into a local under its guard %v and its elements are read here without it, while %s rewrites the same backing array in place (a slice value is a reference, not a snapshot): the walk sees elements twice or not at all", fi.Key, fi.Guard, p.InstrPos(w)))
+					}
 				}
 			}
 		}
@@ -144,6 +171,96 @@ func mapAliasUses(in ssa.Instruction) []ssa.Instruction {
 			case *ssa.Call:
 				if b, ok := x.Call.Value.(*ssa.Builtin); ok && (b.Name() == "len" || b.Name() == "delete") && len(x.Call.Args) > 0 && x.Call.Args[0] == v {
 					out = append(out, x)
+				}
+			case *ssa.Phi:
+				walk(x, d+1)
+			case *ssa.Store:
+				if al, ok := x.Addr.(*ssa.Alloc); ok && x.Val == v {
+					for _, ar := range *al.Referrers() {
+						if u, ok := ar.(*ssa.UnOp); ok && u.Op == token.MUL {
+							walk(u, d+1)
+						}
+					}
+				}
+			}
+		}
+	}
+	walk(ld, 0)
+	return out
+}
+
+// inPlaceWriter: an access of the slice-typed field whose value is re-used as the destination
+// of an append through a re-slice (x[:i], x[:0]) or indexed for a store: the backing array is
+// changed in place.  nil when every writer builds a new array.
+func inPlaceWriter(fi *FieldInfo) ssa.Instruction {
+	if _, ok := fi.Field.Type().Underlying().(*types.Slice); !ok {
+		return nil
+	}
+	for _, a := range fi.Accesses {
+		ld, ok := a.In.(*ssa.UnOp)
+		if !ok || ld.Op != token.MUL || ld.Referrers() == nil {
+			continue
+		}
+		for _, ref := range *ld.Referrers() {
+			switch x := ref.(type) {
+			case *ssa.Slice:
+				if x.X != ld || x.Referrers() == nil {
+					continue
+				}
+				for _, r2 := range *x.Referrers() {
+					if c, ok := r2.(*ssa.Call); ok && IsBuiltin(&c.Call, "append") && len(c.Call.Args) > 0 && c.Call.Args[0] == x {
+						return c
+					}
+					if c, ok := r2.(*ssa.Call); ok && IsBuiltin(&c.Call, "copy") && len(c.Call.Args) > 0 && c.Call.Args[0] == x {
+						return c
+					}
+				}
+			case *ssa.IndexAddr:
+				if x.X != ld || x.Referrers() == nil {
+					continue
+				}
+				for _, r2 := range *x.Referrers() {
+					if st, ok := r2.(*ssa.Store); ok && st.Addr == x {
+						return st
+					}
+				}
+			}
+		}
+	}
+	return nil
+}
+
+// sliceAliasUses: in is a load of a slice-typed field; the element reads of the loaded value
+// (through locals, merges and re-slices).
+func sliceAliasUses(in ssa.Instruction) []ssa.Instruction {
+	ld, ok := in.(*ssa.UnOp)
+	if !ok || ld.Op != token.MUL {
+		return nil
+	}
+	if _, isSlice := ld.Type().Underlying().(*types.Slice); !isSlice {
+		return nil
+	}
+	var out []ssa.Instruction
+	seen := map[ssa.Value]bool{}
+	var walk func(v ssa.Value, d int)
+	walk = func(v ssa.Value, d int) {
+		if seen[v] || d > 6 || v.Referrers() == nil {
+			return
+		}
+		seen[v] = true
+		for _, ref := range *v.Referrers() {
+			switch x := ref.(type) {
+			case *ssa.IndexAddr:
+				if x.X == v && x.Referrers() != nil {
+					for _, r2 := range *x.Referrers() {
+						if u, ok := r2.(*ssa.UnOp); ok && u.Op == token.MUL {
+							out = append(out, u)
+						}
+					}
+				}
+			case *ssa.Slice:
+				if x.X == v {
+					walk(x, d+1)
 				}
 			case *ssa.Phi:
 				walk(x, d+1)
